@@ -39,6 +39,8 @@ TARGETS = [
     ("rich/live_render.py", "LiveRender", "restore_cursor"),
     ("rich/live_render.py", "LiveRender", "set_renderable"),
     ("rich/live_render.py", "LiveRender", "__rich_console__"),
+    ("rich/progress.py", "Progress", "start"),
+    ("rich/progress.py", "Progress", "stop"),
     ("rich/progress.py", "Progress", "refresh"),
     ("rich/progress.py", "Progress", "process_renderables"),
     ("rich/progress.py", "_RefreshThread", "run"),
@@ -94,6 +96,7 @@ class Extract:
         self.classes = classes   # class name -> set of method names (same file)
         self.fname = fname
         self.jumps = 0
+        self.early = None
         self.alias = {}          # local name -> ("call", key) | ("local", f) | ("shared-mut", f)
 
     # ---- helpers
@@ -216,7 +219,21 @@ class Extract:
                 th = self.block(self._strip_return(s.body))
                 el = self.block(list(s.orelse) + rest)
                 out += self.branch(s.test, th, el)
+                self.early = src
                 return out
+            if isinstance(s, ast.With):
+                self.early = None
+                out += self.stmt(s)
+                if self.early is not None and rest:
+                    # `with lock: if c: return` -- what follows the with runs only when c was false
+                    label = self.early
+                    self.early = None
+                    after = self.block(rest)
+                    if after:
+                        out.append(f"If {q(label)} [] [{'; '.join(after)}]")
+                    return out
+                i += 1
+                continue
             out += self.stmt(s)
             if isinstance(s, ast.Return) and rest:
                 raise Untranslatable(f"{self.fname}:{s.lineno} code after return")
@@ -289,8 +306,9 @@ class Extract:
             body = self.block(s.body)
             for h in s.handlers:
                 hb = self.block(h.body)
-                if hb:
-                    raise Untranslatable(f"{self.fname}:{s.lineno} events in except handler")
+                if hb:   # the error path is a dynamic branch taken after (part of) the body
+                    label = "except " + (ast.unparse(h.type) if h.type is not None else "")
+                    body = body + [f"If {q(label)} [{'; '.join(hb)}] []"]
             return body + self.block(s.orelse) + self.block(s.finalbody)
         if isinstance(s, ast.Assign):
             self.expr(s.value, out)
